@@ -178,6 +178,8 @@ def gen_pair_spec(rng, kind):
             spec["max_trials"] = rng.randint(3, TIE_FREE_MAX_TRIALS[p["max_t"]])
         spec["tie_prone"] = tie_prone
         spec["type"] = typ
+        # metric values reported as numpy scalars in a share of the pairs (same type in both runs of the pair)
+        spec["metric_dtype"] = rng.choice(["py", "py", "float64", "float32", "int64"]) if not tie_prone else "py"
         if typ.startswith("rush"):
             spec["num_threshold_candidates"] = rng.choice([0, 1, 2])
     elif kind == "dehb":
@@ -364,7 +366,12 @@ def result_of(spec, variant, overrides, tid, r):
             res["m%d" % i] = -v if (variant == 1 and spec["mask"][i]) else v
         return res
     v = metric_of(spec, overrides, tid, r)
-    return {"epoch": r, "m": v if variant == 0 else -v}
+    dt = spec.get("metric_dtype", "py")
+    if dt in ("int64", "int32"):
+        v = int(v * 100000)  # distinct integers
+    elif dt == "float32":
+        v = float(np.float32(v))  # exactly representable, negation exact
+    return {"epoch": r, "m": U.cast_metric(v if variant == 0 else -v, dt)}
 
 
 def run_one(spec, variant, overrides, limit=None):
@@ -1359,6 +1366,8 @@ def run(ctx, replay=None):
         ctx.count(("pair", spec), nontrivial=n_nontrivial > 0)
         ctx.h("pair_sched", spec["sched"] + (":mode_to_" + spec["mode_to"] if "mode_to" in spec else ""))
         ctx.h("pair_decisions", spec["sched"], n_dec)
+        if spec.get("metric_dtype", "py") != "py":
+            ctx.h("pair_metric_dtype", spec["metric_dtype"])
         ctx.h("pair_nontrivial_events", spec["sched"], n_nontrivial)
         ctx.h("pair_failures_injected", spec["sched"], sum(1 for e in a if e[0] == "failed"))
         ctx.h("pair_completes_with_new_result", spec["sched"], sum(1 for e in a if e[0] == "completed"))
